@@ -48,7 +48,7 @@ def _run_cases(draw):
             "rate": draw(st.sampled_from([1.0, 4.0, 10.0])), "T": draw(st.sampled_from([40, 100, 200])),
             "amp": draw(st.sampled_from([0.0, 3.0, 8.0])), "det": draw(st.sampled_from([-4.0, 0.0, 6.0])),
             "spacing": draw(st.sampled_from([6.0, 8.0])), "init_r": draw(st.booleans()),
-            "evals": draw(st.sampled_from([[1.0], [0.5, 1.0], [0.0, 0.3, 1.0]])), "seed": draw(st.integers(0, 2**20))}
+            "evals": draw(st.sampled_from([[1.0], [0.5, 1.0], [0.0, 0.3, 1.0], [0.25, 0.5, 0.75, 1.0]])), "seed": draw(st.integers(0, 2**20))}
 
 
 @st.composite
@@ -355,8 +355,9 @@ def _check_run(case, r):
     ids = [f"a{i}" for i in range(n)]
     seqc = {"reg": {"ids": ids, "coords": [[case["spacing"] * i, 0.0] for i in range(n)]}, "basis": "rydberg", "device": "mock",
             "local": None, "dmm": None, "slm": None,
-            "ops": [{"t": "pulse", "ch": "g", "amp": {"k": "const", "d": case["T"], "v": case["amp"]},
-                     "det": {"k": "const", "d": case["T"], "v": case["det"]}, "phase": 0.0}]}
+            # a drive that changes in time: the Hamiltonian differs from one evaluation time to the next
+            "ops": [{"t": "pulse", "ch": "g", "amp": {"k": "ramp", "d": case["T"], "a": case["amp"], "b": case["amp"] + 4.0},
+                     "det": {"k": "ramp", "d": case["T"], "a": case["det"], "b": case["det"] - 5.0}, "phase": 0.0}]}
     seq = build.sequence(seqc)
     ev = case["evals"]
     r.label("mps_run", f"n{n}", "noise:" + str(case["noise"]), "no_state_prep" if mask is None else ("dark_atoms" if any(mask) else "filter_without_dark_atoms"))
